@@ -25,7 +25,9 @@ package ipfix
 import (
 	"bytes"
 	"encoding/hex"
+	"encoding/json"
 	"errors"
+	"math"
 	"net"
 	"strconv"
 )
@@ -72,7 +74,9 @@ func (m *Message) encodeDataSet(b *bytes.Buffer) error {
 			b.WriteString("{\"I\":")
 			b.WriteString(strconv.FormatInt(int64(m.DataSets[i][j].ID), 10))
 			b.WriteString(",\"V\":")
-			err = m.writeValue(b, i, j)
+			if err = m.writeValue(b, i, j); err != nil {
+				return err
+			}
 
 			if m.DataSets[i][j].EnterpriseNo != 0 {
 				b.WriteString(",\"E\":")
@@ -180,13 +184,27 @@ func (m *Message) writeValue(b *bytes.Buffer, i, j int) error {
 	case int64:
 		b.WriteString(strconv.FormatInt(m.DataSets[i][j].Value.(int64), 10))
 	case float32:
-		b.WriteString(strconv.FormatFloat(float64(m.DataSets[i][j].Value.(float32)), 'E', -1, 32))
+		f := float64(m.DataSets[i][j].Value.(float32))
+		if math.IsNaN(f) || math.IsInf(f, 0) {
+			b.WriteString("null")
+		} else {
+			b.WriteString(strconv.FormatFloat(f, 'E', -1, 32))
+		}
 	case float64:
-		b.WriteString(strconv.FormatFloat(m.DataSets[i][j].Value.(float64), 'E', -1, 64))
+		f := m.DataSets[i][j].Value.(float64)
+		if math.IsNaN(f) || math.IsInf(f, 0) {
+			b.WriteString("null")
+		} else {
+			b.WriteString(strconv.FormatFloat(f, 'E', -1, 64))
+		}
+	case bool:
+		b.WriteString(strconv.FormatBool(m.DataSets[i][j].Value.(bool)))
 	case string:
-		b.WriteByte('"')
-		b.WriteString(m.DataSets[i][j].Value.(string))
-		b.WriteByte('"')
+		s, err := json.Marshal(m.DataSets[i][j].Value.(string))
+		if err != nil {
+			return err
+		}
+		b.Write(s)
 	case net.IP:
 		b.WriteByte('"')
 		b.WriteString(m.DataSets[i][j].Value.(net.IP).String())
